@@ -47,7 +47,9 @@ ASSUMPTIONS = [
     "points where the energies of the stencil do not lie on one smooth surface (SCF landing on different solutions at "
     "the base and the displaced geometries, recognised from the stencil's own second differences) are excluded and "
     "counted, unless the roughness belongs to an axis-aligned atom pair (then it is reported)",
-    "SP2 points: the density carries the SP2 purification error, tolerance 1e-5 + 5000 x sp2_tol (K_F of DESIGN C04)",
+    "SP2 points: the density carries the SP2 purification error, tolerance 1e-5 + 5000 x sp2_tol (K_F of DESIGN C04); "
+    "excited states: + 5000 x CIS tolerance; analytical/semi-numerical ground-state evaluators: 5e-5 instead of 1e-5 because "
+    "they difference integrals internally with delta = 1e-5 A (measured round-off floor 5.6e-6 eV/A)",
     "excited states with autodiff/semi-numerical requested: the package itself switches to its analytical "
     "excited-state gradient (scf_backward = 0); the descriptor records the effective evaluator; excited-state forces "
     "by back-propagation (scf_backward >= 1) are not explored",
@@ -68,6 +70,7 @@ ATOL = 1e-5
 ATOL_INTERNAL_FD = 5e-5
 RTOL = 1e-6
 K_SP2 = 5000.0
+K_CIS = 5000.0  # excited states: the gradient is first order in the CIS/Z-vector residuals, same factor as for the density
 ROUGH_MAX = 5e-3  # |D(h) - D(2h)| eV/A: above this the energy is not smooth over the stencil
 CURV_MAX = 1e-6  # |S(h) - S(2h)/4| eV: base point and neighbours are not on one smooth surface
 NAMED_MULTI = ["H2CO", "CH3Cl", "CH3F", "SO2", "HCN", "CO", "N2", "C2H2", "CH3OH"]
@@ -108,6 +111,8 @@ def _tol(cfg, fmax, mode="autodiff"):
     t = (ATOL_INTERNAL_FD if internal_fd else ATOL) + RTOL * fmax
     if cfg["sp2"]:
         t += K_SP2 * SP2_TOL
+    if cfg["excited"]:
+        t += K_CIS * CIS_TOL
     return t
 
 
@@ -303,7 +308,7 @@ def config_lattice(tier, seed):
         mols = ["H2O", "H2CO", "H2COH+", "HCOO-", "OH-", "NH4+", "CH3", "NH2", "CH2", "O2"]
         solvers = ["fixed0", "fixed0.3", "adaptive", "pulay"]
         excited = [None, ("cis", 1), ("cis", 2), ("rpa", 1)]
-        orients = {"single": ("doc", "generic"), "homog": ("generic",), "mixed": ("doc", "generic")}
+        orients = {"single": ("doc", "generic"), "homog": ("generic",), "mixed": ("generic",)}
     units = []
     for method in methods:
         for name in mols:
@@ -523,22 +528,23 @@ def run(chk, tier, seed):
     by_unit = dict(zip(order, results))
     # an exception on a request that is not a documented rejection is re-executed once in a process of its own before
     # it is believed (DESIGN section 9); if it does not come back the observation of the second execution is used
-    again = [
-        i for i, r in by_unit.items()
-        if not (is_error(r) or is_timeout(r)) and not r["expected_rejection"]
-        and (any(d["status"] == "raised" for d in r["modes"].values()) or r.get("fd", {}).get("status") == "raised")
-    ]  # fmt: skip
     nonrepro = []
-    for i, r in zip(again, pmap(run_unit, [units[i] for i in again], chunk=1, timeout=900)):
-        if is_error(r) or is_timeout(r):
-            continue
-        first = by_unit[i]
-        for m, d in first["modes"].items():
-            if d["status"] == "raised" and r["modes"][m]["status"] != "raised":
-                nonrepro.append(f"{unit_key(units[i], m)}: {d['msg'][:120]}")
-        if first.get("fd", {}).get("status") == "raised" and r.get("fd", {}).get("status") != "raised":
-            nonrepro.append(f"{unit_key(units[i], 'stencil')}: {first['fd']['msg'][:120]}")
-        by_unit[i] = r
+    for _attempt in (1, 2):  # at most two fresh processes per case
+        again = [
+            i for i, r in by_unit.items()
+            if not (is_error(r) or is_timeout(r)) and not r["expected_rejection"]
+            and (any(d["status"] == "raised" for d in r["modes"].values()) or r.get("fd", {}).get("status") == "raised")
+        ]  # fmt: skip
+        for i, r in zip(again, pmap(run_unit, [units[i] for i in again], chunk=1, timeout=900)):
+            if is_error(r) or is_timeout(r):
+                continue
+            first = by_unit[i]
+            for m, d in first["modes"].items():
+                if d["status"] == "raised" and r["modes"][m]["status"] != "raised":
+                    nonrepro.append(f"{unit_key(units[i], m)}: {d['msg'][:120]}")
+            if first.get("fd", {}).get("status") == "raised" and r.get("fd", {}).get("status") != "raised":
+                nonrepro.append(f"{unit_key(units[i], 'stencil')}: {first['fd']['msg'][:120]}")
+            by_unit[i] = r
     chk.extra["exceptions_not_reproduced_in_a_fresh_process"] = nonrepro
     chk.excluded += len(nonrepro)
     # units with an axis-aligned atom pair that disagree with the stencil (or whose stencil is rough) are re-executed
@@ -575,7 +581,8 @@ def run(chk, tier, seed):
     chk.extra["largest_accepted_curvature_mismatch_over_limit"] = round(stats["max_curv"] / CURV_MAX, 4)
     chk.extra["tolerance"] = (
         f"autodiff and excited states {ATOL} eV/A, analytical/semi-numerical ground state {ATOL_INTERNAL_FD} eV/A (internal "
-        f"delta = 1e-5 A differencing), + {RTOL} |F|max (+ {K_SP2} x {SP2_TOL} with SP2); h = {H} A; scf_eps = {EPS}"
+        f"delta = 1e-5 A differencing), + {RTOL} |F|max (+ {K_SP2} x {SP2_TOL} with SP2, + {K_CIS} x {CIS_TOL} for excited states); "
+        f"h = {H} A; scf_eps = {EPS}"
     )
 
 
